@@ -136,6 +136,8 @@ struct G<'a> {
     msg_id: usize,
     divert_vars: Vec<String>,
     wraps: Vec<(usize, i64, i64)>,
+    /// inside code that can run more than once (tunnels, threads, functions)
+    in_shared: bool,
 }
 
 const HOSTILE: &[&str] = &["\"quoted\"", "back\\\\slash", "tab\there", "caf\u{e9} \u{4f60}\u{597d}", "emoji \u{1F600}", "brace\\{x\\}", "a \\| b", "ctl\u{1}x", "nul-ish \u{7f}"];
@@ -402,7 +404,14 @@ impl<'a> G<'a> {
         self.msg_id += 1;
         let id = self.msg_id;
         let m = self.m();
-        match self.rng.below(5) {
+        match self.rng.below(7) {
+            5 | 6 => {
+                // warning: read of a temp whose declaration was never executed
+                self.line(indent, &format!("{{ zero_{id} == 1:"));
+                self.line(indent + 1, &format!("~ temp u_{id} = 5"));
+                self.line(indent, "}");
+                self.line(indent, &format!("{m} wsite w{id} {{u_{id}}} after"));
+            }
             0 => {
                 // error: divert through a variable holding an int
                 self.line(indent, &format!("{m} before-err e{id}"));
@@ -487,7 +496,7 @@ impl<'a> G<'a> {
                 }
                 self.line(indent, "}");
             }
-            15 if self.cfg.message_sites && !in_func => self.message_site(indent),
+            15 | 18 if self.cfg.message_sites && !in_func && !self.in_shared => self.message_site(indent),
             17 if self.cfg.fault_prone && !in_func => self.wrap_site(indent),
             16 if self.cfg.glue => {
                 let m = self.m();
@@ -603,6 +612,7 @@ pub fn render(rng: &mut Rng, cfg: &GenCfg) -> String {
         msg_id: 0,
         divert_vars: vec![],
         wraps: vec![],
+        in_shared: false,
     };
     // ---- declarations
     if g.cfg.globals {
@@ -762,6 +772,7 @@ pub fn render(rng: &mut Rng, cfg: &GenCfg) -> String {
     }
 
     // ---- tunnels
+    g.in_shared = true;
     let tunnels = g.tunnels.clone();
     for (i, t) in tunnels.iter().enumerate() {
         g.knot = 50 + i;
